@@ -52,6 +52,7 @@ def run(ctx):
     stream_reset(ctx, "C05.9")
     unget_position(ctx)
     delivery_rules(ctx)
+    stream_error_positions(ctx)
     from .c06 import bom_read_and_seek
     bom_read_and_seek(ctx, "C05.13", "C05.14")
     r.rule("C05.1", "CR LF replacement precedes lone CR replacement on the same variable", floor=1)
@@ -352,6 +353,51 @@ def unget_position(ctx):
             "unget() prepends the character to the new chunk without taking it out of prevNumLines / prevNumCols, which already "
             "count it: positions after a push-back across a chunk boundary are shifted (`<!doctyp><p>x` reports its errors at "
             "column 2 with the default chunk size and at column 8 with a chunk size of 2)", detail={"compensated": not bad})
+
+
+def stream_error_positions(ctx):
+    """C05.15: the input stream scans each chunk for invalid code points *when the chunk is read* (readChunk ->
+    reportCharacterErrors) and queues the findings in `self.errors`; the tokenizer drains that queue after its next state
+    step and the parser stamps every error with the position the tokenizer is at by then.  An entry that carries no position
+    of its own is therefore reported at "wherever the tokenizer was when the chunk holding the character was fetched", which
+    depends on the chunk size and the read sizes.  Necessary for C05: what the chunk-level scan queues carries the
+    character's own position (or the scan is not chunk-level)."""
+    r = ctx.r
+    r.rule("C05.15", "errors found by the chunk-level character scan carry the position of the character, not of the chunk fetch", floor=1)
+    cls = ctx.repo.cls(REL, "HTMLUnicodeInputStream")
+    rc = cls.find_method("readChunk")
+    if rc is None:
+        raise AnalysisError("readChunk vanished")
+    # scan functions: methods reachable from readChunk through self.<attr>(...) where <attr> is a method or an attribute bound to methods
+    bound = {}
+    for m in cls.methods.values():
+        for a in ast.walk(m.node):
+            if isinstance(a, ast.Assign) and isinstance(a.targets[0], ast.Attribute) and norm(a.targets[0].value) == "self" and \
+                    isinstance(a.value, ast.Attribute) and norm(a.value.value) == "self" and a.value.attr in cls.methods:
+                bound.setdefault(a.targets[0].attr, set()).add(a.value.attr)
+    called = set()
+    for c in ast.walk(rc.node):
+        if isinstance(c, ast.Call) and isinstance(c.func, ast.Attribute) and norm(c.func.value) == "self":
+            called |= bound.get(c.func.attr, set()) | ({c.func.attr} if c.func.attr in cls.methods else set())
+    sites = []
+    for name in sorted(called):
+        for c in ast.walk(cls.methods[name].node):
+            if isinstance(c, ast.Call) and norm(c.func) == "self.errors.append" and c.args:
+                sites.append((name, c))
+    if not sites:
+        r.idiom("C05.15", False, "chunk-scan-errors-carry-position", rc.where, "no error is queued by a scan called from readChunk: the shape changed")
+        return
+    for name, c in sites:
+        positionless = isinstance(c.args[0], ast.Constant)
+        r.idiom("C05.15", not positionless and any(isinstance(x, (ast.Name, ast.Attribute, ast.Call)) for x in ast.walk(c.args[0])),
+                "chunk-scan-errors-carry-position::%s" % name, "%s:%d" % (REL, c.lineno),
+                "%s queues %s: not recognised" % (name, norm(c.args[0])),
+                wrong=[(positionless,
+                        "%s (called from readChunk on a whole chunk) queues the bare code %s; the parser stamps it with the tokenizer's "
+                        "position when the queue is drained, i.e. where the tokenizer was when the chunk was fetched: "
+                        "`<p>aaaa</p>\\n<p>b\\x01b</p>` reports invalid-codepoint at (1, 1) with the default chunk size and at (2, 6) with "
+                        "a chunk size of 4" % (name, norm(c.args[0])))],
+                detail={"function": name})
 
 
 def delivery_rules(ctx):
